@@ -1038,6 +1038,17 @@ func genC09(b *builder) {
 		nt = 17 + r.Intn(10) // a crowd waiting for the one port: served in turn, every one of them
 	}
 	long := !queued && r.Intn(60) == 0 // a long life: hundreds of calls on the same clients, nothing accumulates
+	longFail := long && r.Intn(3) == 0
+	if longFail {
+		// ... of which none can even get its socket: another process holds the fixed bind port throughout, every
+		// controller is reached by broadcast
+		port := uint16(60001 + r.Intn(5))
+		for i := range sc.Clients {
+			sc.Clients[i].Bind = fmt.Sprintf("0.0.0.0:%d", port)
+			sc.Clients[i].Devices = nil
+		}
+		sc.Foreign = append(sc.Foreign, vnet.ForeignPort{Proto: "udp", Port: port}, vnet.ForeignPort{Proto: "tcp", Port: port})
+	}
 	for t := 0; t < nt; t++ {
 		tk := engine.Task{Start: time.Duration(r.Intn(3)) * time.Millisecond}
 		ns := 1 + b.n(6)
@@ -1049,6 +1060,9 @@ func genC09(b *builder) {
 		}
 		if long {
 			ns = pick(r, 130, 260, 300, 520)
+		}
+		if longFail {
+			ns = pick(r, 300, 600, 900)
 		}
 		for s := 0; s < ns; s++ {
 			client := r.Intn(len(sc.Clients))
